@@ -92,8 +92,11 @@ func lookupNode[T any](urlTree *URLTree[T], url string) lookupNodeResult[T] {
 	}
 	// Exact value not found, check if node has wildcard child
 	if currentNode.WildcardChild != nil {
+		// the match is the wildcard pattern, not the exact URL: report it as such
+		wildcardPart := urlPart{IsPartOfHost: currentNode.WildcardChild.IsPartOfHost}
 		return buildLookupNodeResult(
-			true, currentNode.WildcardChild, params, urlPath)
+			true, currentNode.WildcardChild, params,
+			urlPath+getDelimiter(wildcardPart)+wildcard)
 	}
 	// Check if a matching wildcard was found in a parent node
 	if foundWildcardNode != nil {
